@@ -34,7 +34,7 @@ for name in names:
     row = {"property": meta["property"], "needs": meta.get("needs", "")}
     demo = os.path.join(d, "demo.py")
     if os.path.exists(demo):
-        r = sh(f"/venv/bin/python {demo}", cwd=SCR)
+        r = sh(f"/venv/bin/python {demo}", cwd=SCR, env={"PYTHONPATH": SCR})
         row["demo_clean"] = "pass" if r.returncode == 0 else f"FAILS-ON-CLEAN({r.returncode})"
     a = sh(f"git apply {os.path.join(d, 'patch.diff')}", cwd=SCR)
     if a.returncode != 0:
@@ -44,7 +44,7 @@ for name in names:
         continue
     row["suite"] = sh("/venv/bin/python -m pytest -q -p no:cacheprovider 2>&1 | tail -1", cwd=SCR).stdout.strip()
     if os.path.exists(demo):
-        r = sh(f"/venv/bin/python {demo}", cwd=SCR)
+        r = sh(f"/venv/bin/python {demo}", cwd=SCR, env={"PYTHONPATH": SCR})
         row["demo_patched"] = "fails" if r.returncode != 0 else "PASSES-WITH-PATCH"
     props = [meta["property"]] + [p for p in meta.get("also", [])]
     if ALL:
